@@ -26,7 +26,7 @@ import zipfile
 
 from lxml import etree
 
-from corr.harness import coq_build, run_model, exc_name
+from corr.harness import VERIF, _run, coq_build, run_model, exc_name
 
 NS_R = "http://schemas.openxmlformats.org/officeDocument/2006/relationships"
 NS_PR = "http://schemas.openxmlformats.org/package/2006/relationships"
@@ -522,7 +522,8 @@ def parse_model(tab, line):
             prels = [parse_relr(tab, x) for x in _split(f[3][1:], S5)]
         order = [int(x) for x in _split(f[1], ",")]
         fl = f[4].split(S6)
-        views.append({"outcome": f[0], "order": order, "parts": {k: dict(v) for k, v in parts.items()},
+        o3 = f[0].rsplit(":", 2)
+        views.append({"outcome": o3[0], "inv": o3[1] == "True", "tables_ok": o3[2] == "True", "order": order, "parts": {k: dict(v) for k, v in parts.items()},
                       "prels": list(prels), "flags": (fl[0] == "True", fl[1] != "-", fl[2] != "-"),
                       "phys": parse_phys(tab, f[5]) if f[5] else None})
     return views
@@ -1034,12 +1035,17 @@ def run_one(deck_name, ops, with_model=True, model_lines=None):
     given).  -> dict(diffs=[...], oracle=[(sig, text, step)], outcomes=[...], classes=set())"""
     data = decks()[deck_name]
     r = Runner(data)
-    res = {"diffs": [], "oracle": [], "outcomes": [], "nsaves": 0}
+    res = {"diffs": [], "oracle": [], "outcomes": [], "nsaves": 0, "inv_false": [], "inv_states": 0}
     views = model_lines
     if views is not None:
         d = diff_views(views[0], impl_view(r.prs))
         if d:
             res["diffs"].append((0, None, "initial state: " + d))
+        for n, v in enumerate(views):
+            res["inv_states"] += 1
+            if not (v["inv"] and v["tables_ok"]):
+                res["inv_false"].append((n, ops[n - 1] if n else None, "invb=%s tables_okb=%s" % (v["inv"], v["tables_ok"])))
+                break
     for n, op in enumerate(ops, 1):
         out = r.step(op)
         res["outcomes"].append(out)
@@ -1127,7 +1133,8 @@ def worker(job):
                 except Exception as e:  # noqa
                     shr[sig] = vops[:step]
         out["results"].append({"variant": vname, "ops": vops, "diffs": res["diffs"], "oracle": res["oracle"],
-                               "min": shr, "outcomes": res["outcomes"], "nsaves": res["nsaves"]})
+                               "min": shr, "outcomes": res["outcomes"], "nsaves": res["nsaves"],
+                               "inv_false": res["inv_false"], "inv_states": res["inv_states"]})
     return out
 
 
@@ -1150,7 +1157,12 @@ def nontrivial(ops, outcomes):
 
 
 def run(ck, tier, rng):
-    ck.build = coq_build("C02")
+    # tables of the live tree for the instance example of props/C02.v (shared with C01)
+    rc, out = _run(["/venv/bin/python", os.path.join(VERIF, "tx", "tx_c01.py")], cwd=VERIF)
+    if rc != 0:
+        ck.violation("translator", "tx_c01 failed on the current tree: " + out[-600:],
+                     {"theorem_or_correspondence": "translator tx_c01 (default_content_types for C02_ex_tables_live)"}, concrete=False)
+    ck.build = coq_build("C02", extra_targets=["gen/GenC01.vo"])
     nh = 150 if tier == "quick" else 3000
     maxlen = 12 if tier == "quick" else 40
     jobs = [(rng.getrandbits(48), maxlen) for _ in range(nh)]
@@ -1165,11 +1177,16 @@ def run(ck, tier, rng):
     with multiprocessing.Pool(procs) as pool:
         results = pool.map(worker, jobs, chunksize=max(1, nh // (procs * 8)))
     nsaves = 0
+    inv_states = 0
+    inv_false = []
     for out in results:
         if out.get("model_error"):
             diffs.append("model runner: " + out["model_error"])
         for r in out["results"]:
             nsaves += r["nsaves"]
+            inv_states += r["inv_states"]
+            for step, op, text in r["inv_false"]:
+                inv_false.append("deck %s variant %s step %d op %r: %s; history %r" % (out["deck"], r["variant"], step, op, text, r["ops"][:step]))
             key = (out["deck"], tuple(map(tuple, map(flat, r["ops"]))))
             ck.count(key, nontrivial(r["ops"], r["outcomes"]), "%s/%s" % (out["deck"] if out["deck"] in ("default", "rich") else "irregular", r["variant"]))
             for o, res in zip(r["ops"], r["outcomes"]):
@@ -1192,11 +1209,16 @@ def run(ck, tier, rng):
                      % (len(diffs), diffs[0][:900]),
                      {"theorem_or_correspondence": "correspondence PkgOps.v ~ package operations of python-pptx (theorems C02_* are about the model only)",
                       "diffs": diffs[:5]}, concrete=False)
+    if inv_false and not concrete:
+        ck.violation("invariant", "the invariant Inv of props/C02.v (decidable form invb, evaluated by the extracted model) is false at %d states the histories reach, first: %s"
+                     % (len(inv_false), inv_false[0][:900]),
+                     {"theorem_or_correspondence": "C02_reachable / hypothesis Inv (init deck) of the C02 theorems", "states": inv_false[:5]}, concrete=False)
     ck.broken_build(oracle_found_concrete=len(ck.violations) > 0)
     return ck.finish(
         rule="%d random histories of 1..%d public-API operations (21 operation kinds incl. refused calls and read accesses) over the default template, a deck with pictures/chart/notes/hyperlink and five copies of it with slide members renamed out of order / with gaps; each history runs as generated + final save and with a save at every prefix (for irregular decks half of those after a first prs.slides access); non-trivial = at least two graph-changing operations succeeded and a save followed" % (nh, maxlen),
         trusted_base=TB, assumptions=ASSUME,
         extra={"correspondence_diffs": len(diffs), "saves_checked_by_oracle": nsaves, "constants_ok": consts_ok,
+               "states_on_which_invb_was_evaluated": inv_states, "states_with_invb_false": len(inv_false),
                "exhaustive": False},
     )
 
